@@ -67,7 +67,7 @@ func init() {
 		Technique:   "static analysis: assume/guarantee must-facts dataflow over go/cfg; sibling cross-check; composite-literal binding patterns",
 		Rules:       []string{"E1", "E5.R-discard"},
 		Run: func(c *Ctx) {
-			RunE1(c, "C15", obs)
+			RunE1(c, "C15", append(append([]Ob{}, obs...), sharedObs["C15"]...))
 			RunConstSlice(c, "E7.te.alltypes", "oidc", "AllTokenTypes", []string{"oidc.AccessTokenType", "oidc.RefreshTokenType", "oidc.IDTokenType", "oidc.JWTTokenType"})
 			RunDiscard(c, "C15", []string{"op"})
 		},
